@@ -72,10 +72,21 @@ func bePut(n int, v uint64) []byte {
 // pickField: a class first (so that small fields are hit as often as large ones), then one of its fields.
 // The last transaction is validated by store.Open itself, after which nothing else can be observed: 5 out of 6
 // picks avoid it when the class has fields elsewhere.
+// uni draws an index in [0,n) without rapid's bias towards small values (the draw is scrambled; shrinking still
+// works on the underlying integer).
+func uni(rt *rapid.T, n int, label string) int {
+	x := uint64(rapid.Uint32().Draw(rt, label))
+	x += 0x9E3779B97F4A7C15
+	x = (x ^ (x >> 30)) * 0xBF58476D1CE4E5B9
+	x = (x ^ (x >> 27)) * 0x94D049BB133111EB
+	x ^= x >> 31
+	return int(x % uint64(n))
+}
+
 func pickField(rt *rapid.T, l *layout, classes []string) *field {
-	c := classes[rapid.IntRange(0, len(classes)-1).Draw(rt, "class")]
+	c := classes[uni(rt, len(classes), "class")]
 	fs := l.byClass[c]
-	if rapid.IntRange(0, 5).Draw(rt, "avoidLastTx") > 0 {
+	if uni(rt, 6, "avoidLastTx") > 0 {
 		var inner []*field
 		for _, f := range fs {
 			if f.tx != len(l.recs) {
@@ -86,7 +97,7 @@ func pickField(rt *rapid.T, l *layout, classes []string) *field {
 			fs = inner
 		}
 	}
-	return fs[rapid.IntRange(0, len(fs)-1).Draw(rt, "fieldIdx")]
+	return fs[uni(rt, len(fs), "fieldIdx")]
 }
 
 func classesWhere(l *layout, pred func(string) bool) []string {
@@ -102,7 +113,8 @@ func classesWhere(l *layout, pred func(string) bool) []string {
 // genAlteration draws one alteration of the pristine image.
 func genAlteration(rt *rapid.T, p *pristine) *alteration {
 	l := p.lay
-	kind := rapid.SampledFrom([]string{"flip1", "flip1", "flip1", "flip2", "flip3", "flip8", "bytes", "bytes", "field", "field", "field", "field", "splice-value", "splice-record"}).Draw(rt, "kind")
+	kinds := []string{"flip1", "flip1", "flip1", "flip2", "flip3", "flip8", "bytes", "bytes", "field", "field", "field", "field", "splice-value", "splice-record"}
+	kind := kinds[uni(rt, len(kinds), "kind")]
 	a := &alteration{kind: kind, entry: -1}
 	switch kind {
 	case "flip1", "flip2", "flip3", "flip8":
@@ -111,21 +123,21 @@ func genAlteration(rt *rapid.T, p *pristine) *alteration {
 		a.class, a.tx, a.entry = f.class, f.tx, f.entry
 		reg := l.regions[f.region]
 		seen := map[[2]int]bool{}
-		spread := rapid.SampledFrom([]string{"field", "region", "anywhere"}).Draw(rt, "spread")
+		spread := func() string { o := []string{"field", "region", "anywhere"}; return o[uni(rt, len(o), "spread")] }()
 		var ws []string
 		for i := 0; i < k; i++ {
 			ri, pos := f.region, 0
 			switch {
 			case i == 0 || spread == "field":
-				pos = rapid.IntRange(f.lo, f.hi-1).Draw(rt, "pos")
+				pos = f.lo + uni(rt, f.hi-f.lo, "pos")
 			case spread == "region":
-				pos = rapid.IntRange(0, len(reg.addrs)-1).Draw(rt, "pos")
+				pos = uni(rt, len(reg.addrs), "pos")
 			default:
 				g := pickField(rt, l, l.classes)
 				ri = g.region
-				pos = rapid.IntRange(g.lo, g.hi-1).Draw(rt, "pos")
+				pos = g.lo + uni(rt, g.hi-g.lo, "pos")
 			}
-			bit := rapid.IntRange(0, 7).Draw(rt, "bit")
+			bit := uni(rt, 8, "bit")
 			if seen[[2]int{ri*1000000 + pos, bit}] {
 				continue
 			}
@@ -138,13 +150,13 @@ func genAlteration(rt *rapid.T, p *pristine) *alteration {
 		f := pickField(rt, l, l.classes)
 		a.class, a.tx, a.entry = f.class, f.tx, f.entry
 		reg := l.regions[f.region]
-		pos := rapid.IntRange(f.lo, f.hi-1).Draw(rt, "pos")
+		pos := f.lo + uni(rt, f.hi-f.lo, "pos")
 		n := rapid.IntRange(1, 8).Draw(rt, "n")
 		if pos+n > len(reg.addrs) {
 			n = len(reg.addrs) - pos
 		}
 		nb := make([]byte, n)
-		pat := rapid.SampledFrom([]string{"random", "zero", "ff", "shift"}).Draw(rt, "pattern")
+		pat := func() string { o := []string{"random", "zero", "ff", "shift"}; return o[uni(rt, len(o), "pattern")] }()
 		switch pat {
 		case "random":
 			for i := range nb {
@@ -171,7 +183,7 @@ func genAlteration(rt *rapid.T, p *pristine) *alteration {
 		if len(vals) < 2 {
 			return genFallback(rt, p)
 		}
-		f := vals[rapid.IntRange(0, len(vals)-1).Draw(rt, "dst")]
+		f := vals[uni(rt, len(vals), "dst")]
 		var cands []*field
 		for _, g := range vals {
 			if g != f && g.class == f.class && g.hi-g.lo == f.hi-f.lo {
@@ -181,7 +193,7 @@ func genAlteration(rt *rapid.T, p *pristine) *alteration {
 		if len(cands) == 0 {
 			return genFallback(rt, p)
 		}
-		g := cands[rapid.IntRange(0, len(cands)-1).Draw(rt, "src")]
+		g := cands[uni(rt, len(cands), "src")]
 		a.class, a.tx, a.entry = f.class, f.tx, f.entry
 		a.edits = l.editsFor(f.region, f.lo, l.bytesOf(g))
 		a.what = fmt.Sprintf("value of tx %d/%d copied over", g.tx, g.entry)
@@ -190,7 +202,7 @@ func genAlteration(rt *rapid.T, p *pristine) *alteration {
 		if len(l.recs) < 2 {
 			return genFallback(rt, p)
 		}
-		dst := rapid.IntRange(1, len(l.recs)).Draw(rt, "dstTx")
+		dst := 1 + uni(rt, len(l.recs), "dstTx")
 		var cands []int
 		for j, r := range l.recs {
 			if j+1 != dst && r.size <= l.recs[dst-1].size {
@@ -200,7 +212,7 @@ func genAlteration(rt *rapid.T, p *pristine) *alteration {
 		if len(cands) == 0 {
 			return genFallback(rt, p)
 		}
-		src := cands[rapid.IntRange(0, len(cands)-1).Draw(rt, "srcTx")]
+		src := cands[uni(rt, len(cands), "srcTx")]
 		var dreg, sreg int
 		for i, r := range l.regions {
 			if r.kind == "rec" && r.tx == dst {
@@ -263,7 +275,7 @@ func fieldEdit(rt *rapid.T, p *pristine, a *alteration) {
 	switch {
 	case f.class == "vOff":
 		v := beUint(cur)
-		choice := rapid.SampledFrom([]string{"same-len", "same-len", "other", "plus1", "minus1", "zero", "beyond", "vlog", "max"}).Draw(rt, "vOffEdit")
+		choice := func() string { o := []string{"same-len", "same-len", "other", "plus1", "minus1", "zero", "beyond", "vlog", "max"}; return o[uni(rt, len(o), "vOffEdit")] }()
 		myLen := p.txs[f.tx-1].entries[f.entry].vLen
 		var pool []uint64
 		for _, g := range l.byClass["vOff"] {
@@ -281,7 +293,7 @@ func fieldEdit(rt *rapid.T, p *pristine, a *alteration) {
 		switch choice {
 		case "same-len", "other":
 			if len(pool) > 0 {
-				nv = pool[rapid.IntRange(0, len(pool)-1).Draw(rt, "otherOff")]
+				nv = pool[uni(rt, len(pool), "otherOff")]
 			} else {
 				nv = v + 1
 				choice += "(none:+1)"
@@ -312,7 +324,7 @@ func fieldEdit(rt *rapid.T, p *pristine, a *alteration) {
 		if n == 8 {
 			max = ^uint64(0)
 		}
-		choice := rapid.SampledFrom([]string{"zero", "one", "minus1", "plus1", "max", "other", "high", "double"}).Draw(rt, "numEdit")
+		choice := func() string { o := []string{"zero", "one", "minus1", "plus1", "max", "other", "high", "double"}; return o[uni(rt, len(o), "numEdit")] }()
 		nv := v
 		switch choice {
 		case "zero":
@@ -327,7 +339,7 @@ func fieldEdit(rt *rapid.T, p *pristine, a *alteration) {
 			nv = max
 		case "other":
 			gs := l.byClass[f.class]
-			nv = beUint(l.bytesOf(gs[rapid.IntRange(0, len(gs)-1).Draw(rt, "otherNum")]))
+			nv = beUint(l.bytesOf(gs[uni(rt, len(gs), "otherNum")]))
 		case "high":
 			nv = v | 1<<(8*uint(n)-1)
 		case "double":
@@ -341,7 +353,7 @@ func fieldEdit(rt *rapid.T, p *pristine, a *alteration) {
 		nb = bePut(n, nv)
 		a.what = fmt.Sprintf("%s %d -> %d (%s)", f.class, v, nv, choice)
 	case hashClasses[f.class]:
-		choice := rapid.SampledFrom([]string{"same-class", "same-class", "any-hash", "zero", "empty-sha"}).Draw(rt, "hashEdit")
+		choice := func() string { o := []string{"same-class", "same-class", "any-hash", "zero", "empty-sha"}; return o[uni(rt, len(o), "hashEdit")] }()
 		switch choice {
 		case "same-class", "any-hash":
 			var pool [][]byte
@@ -354,7 +366,7 @@ func fieldEdit(rt *rapid.T, p *pristine, a *alteration) {
 			if len(pool) == 0 {
 				nb = make([]byte, n)
 			} else {
-				nb = pool[rapid.IntRange(0, len(pool)-1).Draw(rt, "otherHash")]
+				nb = pool[uni(rt, len(pool), "otherHash")]
 			}
 		case "zero":
 			nb = make([]byte, n)
@@ -365,8 +377,8 @@ func fieldEdit(rt *rapid.T, p *pristine, a *alteration) {
 		a.what = fmt.Sprintf("%s := %s %x", f.class, choice, nb[:4])
 	default: // metadata bytes: attribute codes, embedded lengths and timestamps
 		nb = append([]byte(nil), cur...)
-		pos := rapid.IntRange(0, n-1).Draw(rt, "mdPos")
-		choice := rapid.SampledFrom([]string{"code0", "code1", "code2", "code3", "ff", "inc", "swap"}).Draw(rt, "mdEdit")
+		pos := uni(rt, n, "mdPos")
+		choice := func() string { o := []string{"code0", "code1", "code2", "code3", "ff", "inc", "swap"}; return o[uni(rt, len(o), "mdEdit")] }()
 		switch choice {
 		case "code0", "code1", "code2", "code3":
 			nb[pos] = choice[4] - '0'
